@@ -66,7 +66,7 @@ func genB() *rapid.Generator[Case] {
 		b := &CaseB{Creator: rapid.SampledFrom([]string{"core", "core", "csv", "texttable"}).Draw(t, "creator")}
 		n := rapid.IntRange(2, max).Draw(t, "n")
 		for i := 0; i < n; i++ {
-			k := rapid.SampledFrom([]string{"op", "op", "op", "op", "rowerr", "reg", "reg", "render", "cbrow", "update"}).Draw(t, "step")
+			k := rapid.SampledFrom([]string{"op", "op", "op", "op", "rowerr", "reg", "reg", "render", "cbrow", "update", "ownrow"}).Draw(t, "step")
 			st := StepB{K: k}
 			switch k {
 			case "cbrow":
@@ -82,6 +82,21 @@ func genB() *rapid.Generator[Case] {
 					b.Steps = append(b.Steps, StepB{K: "op", Op: &gen.Op{K: "rowadd", Ref: -1, Items: []gen.Item{item.Draw(t, "item")}}})
 				}
 				b.Steps = append(b.Steps, StepB{K: "op", Op: &gen.Op{K: "addrow", Ref: -1}})
+				continue
+			case "ownrow":
+				// a row made on its own, told of errors (or of nil, or of nothing) while detached, attached, then told again
+				mk := rapid.SampledFrom([]string{"newrow", "newrowsized", "newrowcap"}).Draw(t, "ownrow-make")
+				b.Steps = append(b.Steps, StepB{K: "op", Op: &gen.Op{K: mk}})
+				for a, pre := 0, rapid.IntRange(0, 2).Draw(t, "ownrow-pre"); a < pre; a++ {
+					b.Steps = append(b.Steps, StepB{K: "rowerr", Ref: -1, Mode: rapid.IntRange(0, 3).Draw(t, "mode"), Cnt: rapid.IntRange(1, 3).Draw(t, "cnt")})
+				}
+				if rapid.Bool().Draw(t, "ownrow-fill") {
+					b.Steps = append(b.Steps, StepB{K: "op", Op: &gen.Op{K: "rowadd", Ref: -1, Items: []gen.Item{item.Draw(t, "item")}}})
+				}
+				b.Steps = append(b.Steps, StepB{K: "op", Op: &gen.Op{K: "addrow", Ref: -1}})
+				for a, post := 0, rapid.IntRange(1, 2).Draw(t, "ownrow-post"); a < post; a++ {
+					b.Steps = append(b.Steps, StepB{K: "rowerr", Ref: -1, Mode: rapid.SampledFrom([]int{0, 0, 2, 2, 1, 3}).Draw(t, "mode"), Cnt: rapid.IntRange(1, 3).Draw(t, "cnt")})
+				}
 				continue
 			case "op":
 				op := gen.Op{K: rapid.SampledFrom([]string{"hdr", "rowitems", "rowitems", "sep", "appendnew", "newrow", "newrowsized", "newrowzero", "rowadd", "rowadd", "rowadd", "addrow", "addrow", "zerorow"}).Draw(t, "kind")}
@@ -112,6 +127,10 @@ func genB() *rapid.Generator[Case] {
 				if rapid.IntRange(0, 2).Draw(t, "shared?") == 0 {
 					st.Shared = rapid.IntRange(1, 3).Draw(t, "shared")
 				}
+				if rapid.IntRange(0, 2).Draw(t, "listmode?") == 0 {
+					st.Mode = rapid.IntRange(1, 3).Draw(t, "mode")
+					st.Cnt = rapid.IntRange(1, 3).Draw(t, "cnt")
+				}
 			case "reg":
 				st.Owner = rapid.SampledFrom([]string{"table", "column", "row", "cell"}).Draw(t, "owner")
 				st.Ref = rapid.IntRange(0, 7).Draw(t, "ref")
@@ -123,6 +142,9 @@ func genB() *rapid.Generator[Case] {
 				}
 				if rapid.IntRange(0, 3).Draw(t, "shared?") == 0 {
 					st.Shared = rapid.IntRange(1, 3).Draw(t, "shared")
+				}
+				if gen.Rarely(t, "nest", 6) {
+					st.Owner, st.When, st.Target, st.Nest = "table", 0, rapid.IntRange(1, 2).Draw(t, "nest-target"), true
 				}
 			case "render":
 				st.Via = rapid.SampledFrom([]string{"invoke", "csv", "texttable"}).Draw(t, "via")
